@@ -61,6 +61,33 @@ FF(cur, e) == IF cur = "none" THEN e ELSE cur     \* store-if-absent
 Agents(s) == DOMAIN s.ag
 Subscribed(s, ev) == {a \in Agents(s) : ev \in s.ag[a].subs}
 
+----------------------------------------------------------------------------
+(* pause points of the verification hooks: a goroutine reaches the point (HookEnter) and stays there *)
+(* until the harness lets it go (HookLeave); the step behind the point is disabled meanwhile        *)
+
+HeldN(s, p) == IF p \in DOMAIN s.held THEN s.held[p] ELSE 0
+
+\* number of goroutines that are at the point (its next step is the one behind the point)
+AtPointN(s, p) ==
+    CASE p = "rapid.reinitialize"      -> Cardinality({x \in DOMAIN s.rs : s.rs[x].pc = "r3"})
+      [] p = "server.resetBeforeClear" -> Cardinality({x \in DOMAIN s.rs : s.rs[x].pc = "r4"})
+      [] p = "server.beforeReserve"    -> Cardinality({k \in DOMAIN s.iv : s.iv[k].r = "res"})
+      [] p = "server.beforeFastInvoke" -> Cardinality({k \in DOMAIN s.iv : s.iv[k].f = "fast"})
+      [] p = "watch.flowsCanceled"     -> IF s.pcW.pc = "w3" THEN 1 ELSE 0
+      [] p = "server.sendResponse"      -> Cardinality({c \in DOMAIN s.calls : s.calls[c].api = "response" /\ s.calls[c].st = "issued"})
+      [] p = "server.sendErrorResponse" -> Cardinality({c \in DOMAIN s.calls : s.calls[c].api = "error" /\ s.calls[c].st = "issued"})
+      [] p = "init.afterRegisterCount" -> IF s.pcI.pc = "d2" /\ Len(s.toExec) = Cardinality(s.extFiles) THEN 1 ELSE 0
+      [] OTHER -> 0
+\* the step behind p may be taken by a goroutine at p only if not all goroutines at p are held
+Free(s, p) == HeldN(s, p) = 0 \/ AtPointN(s, p) > HeldN(s, p)
+
+HookEnterEn(s, p) == AtPointN(s, p) > HeldN(s, p)          \* a goroutine at the point that is not yet counted as held
+HookEnterDo(s, p) == [s EXCEPT !.held = [q \in DOMAIN s.held \cup {p} |-> IF q = p THEN HeldN(s, p) + 1 ELSE s.held[q]]]
+HookLeaveEn(s, p) == HeldN(s, p) > 0
+HookLeaveDo(s, p) == [s EXCEPT !.held[p] = @ - 1]
+
+
+
 NewAgent(kind, state, err, g) == [kind |-> kind, st |-> state, subs |-> {}, flag |-> FALSE, err |-> err, gen |-> g, rid |-> 0]
 WithAgent(s, a, rec) == [s EXCEPT !.ag = [x \in DOMAIN s.ag \cup {a} |-> IF x = a THEN rec ELSE s.ag[x]]]
 WithProc(s, p, rec)  == [s EXCEPT !.procs = [x \in DOMAIN s.procs \cup {p} |-> IF x = p THEN rec ELSE s.procs[x]]]
@@ -111,7 +138,7 @@ State0(files, lf) ==
       ninv |-> 0,
       calls |-> <<>>, ncalls |-> 0,
       crashed |-> FALSE,
-      held |-> {},                     \* pause points (verif hooks) at which a goroutine is being held by the harness
+      held |-> <<>>,                   \* pause points (verif hooks): point -> number of goroutines the harness holds there
       drvDl |-> 0,
       drv |-> "idle",                  \* platform driver calling Server.Reset / Server.Shutdown directly
       tel |-> <<>> ]
@@ -151,7 +178,7 @@ InitLockDo(s) == InitBegin([s EXCEPT !.hm = "init", !.credVal = IF s.caching THE
 
 \* d2: create the agent object of the next external extension (registration of that name is possible from
 \* now on) ...
-CreateExtEn(s) == s.pcI.pc = "d2" /\ Len(s.toExec) > 0 /\ "init.afterRegisterCount" \notin s.held
+CreateExtEn(s) == s.pcI.pc = "d2" /\ Len(s.toExec) > 0 /\ Free(s, "init.afterRegisterCount")
 CreateExtDo(s) ==
     LET e == Head(s.toExec) IN
     IF ~s.regOpen THEN InitFail([s EXCEPT !.toExec = Tail(@)], "ErrRegistrationServiceOff")
@@ -173,7 +200,7 @@ LaunchExtDo(s) ==
 LaunchExtExec(s) == IF Head(s.toExec) \in s.launchFail THEN "launch" ELSE "ok"
 
 \* d3+d4: all external extensions registered -> create, register and launch the runtime
-LaunchRuntimeEn(s) == s.pcI.pc = "d2" /\ Len(s.toExec) = 0 /\ GCond(s.ig.extReg) /\ "init.afterRegisterCount" \notin s.held
+LaunchRuntimeEn(s) == s.pcI.pc = "d2" /\ Len(s.toExec) = 0 /\ GCond(s.ig.extReg) /\ Free(s, "init.afterRegisterCount")
 LaunchRuntimeDo(s) ==
     LET o == GOutcome(s.ig.extReg) IN
     IF o # "ok" THEN InitFail(s, o)
@@ -320,7 +347,7 @@ MainBeginDo(s, k) ==
 
 \* release goroutine: Reserve.  A failed reservation is reported through releaseErrChan
 \* (tree after the fix of F-C10-1; the tree as found dereferenced the nil response and crashed).
-RelReserveEn(s, k) == s.iv[k].r = "res" /\ "server.beforeReserve" \notin s.held
+RelReserveEn(s, k) == s.iv[k].r = "res" /\ Free(s, "server.beforeReserve")
 RelReserveDo(s, k) ==
     IF s.srv.inv # 0 THEN [s EXCEPT !.iv[k].r = "senderr", !.iv[k].relRes = "AlreadyReserved"]
     ELSE [s EXCEPT !.srv.inv = k, !.srv.stream = FALSE, !.srv.sent = FALSE, !.srv.sowner = 0,
@@ -347,7 +374,7 @@ FioShutdownDoneDo(s, k) ==
 
 \* FastInvoke: attach this call's reply stream to whatever reservation is current, take its id,
 \* start the inner goroutine
-FioFastInvokeEn(s, k) == s.iv[k].f = "fast" /\ "server.beforeFastInvoke" \notin s.held
+FioFastInvokeEn(s, k) == s.iv[k].f = "fast" /\ Free(s, "server.beforeFastInvoke")
 FioFastInvokeDo(s, k) ==
     IF s.srv.inv = 0 \/ s.srv.sent \/ s.srv.stream
     THEN [s EXCEPT !.iv[k].f = "off"]        \* NotReserved / AlreadyReplied / AlreadyInvocating: nothing dispatched
@@ -444,7 +471,7 @@ ResetFinishDo(s, x) ==
 \* reinitialize: appctx keys, renderer, initDone, registration service, flows.  The repaired code runs it
 \* before HandleReset releases the handler mutex; as found ("clear-outside-mutex", F-C03-1) it ran after
 \* the release, so that a handler queued on the mutex could start on state about to be cleared.
-ResetClearEn(s, x) == s.rs[x].pc = "r3" /\ "rapid.reinitialize" \notin s.held
+ResetClearEn(s, x) == s.rs[x].pc = "r3" /\ Free(s, "rapid.reinitialize")
 ResetClearDo(s, x) ==
     [s EXCEPT !.hm = IF "clear-outside-mutex" \in AsFound THEN @ ELSE "free",
               !.firstFatal = "none", !.renderer = "none", !.initDone = FALSE,
@@ -461,7 +488,7 @@ ResetClearDo(s, x) ==
 
 \* Server.Clear: drain InvokeDoneChan, Release; phase idle; the message on ResetDoneChan is taken by
 \* whichever Reset call is waiting
-ResetServerClearEn(s, x) == s.rs[x].pc = "r4" /\ "server.resetBeforeClear" \notin s.held
+ResetServerClearEn(s, x) == s.rs[x].pc = "r4" /\ Free(s, "server.resetBeforeClear")
 ResetServerClearDo(s, x) ==
     [Release([s EXCEPT !.srv.done = "empty", !.srv.phase = "idle", !.srv.cached = NoCached]) EXCEPT
         !.rdone = @ + 1, !.rs = [y \in DOMAIN s.rs \ {x} |-> s.rs[y]]]
@@ -584,25 +611,6 @@ ShutReapTimeoutEn(s) == s.pcS.pc = "reap" /\ \E p \in DOMAIN s.procs : s.procs[p
 ShutReapTimeoutDo(s) == [s EXCEPT !.shutOn = FALSE, !.pcS.pc = "done"]
 
 ----------------------------------------------------------------------------
-(* pause points of the verification hooks: a goroutine reaches the point (HookEnter) and stays there *)
-(* until the harness lets it go (HookLeave); the step behind the point is disabled meanwhile        *)
-
-AtPoint(s, p) ==
-    CASE p = "rapid.reinitialize"      -> \E x \in DOMAIN s.rs : s.rs[x].pc = "r3"
-      [] p = "server.resetBeforeClear" -> \E x \in DOMAIN s.rs : s.rs[x].pc = "r4"
-      [] p = "server.beforeReserve"    -> \E k \in DOMAIN s.iv : s.iv[k].r = "res"
-      [] p = "server.beforeFastInvoke" -> \E k \in DOMAIN s.iv : s.iv[k].f = "fast"
-      [] p = "watch.flowsCanceled"     -> s.pcW.pc = "w3"
-      [] p = "server.sendResponse"      -> \E c \in DOMAIN s.calls : s.calls[c].api = "response" /\ s.calls[c].st = "issued"
-      [] p = "server.sendErrorResponse" -> \E c \in DOMAIN s.calls : s.calls[c].api = "error" /\ s.calls[c].st = "issued"
-      [] p = "init.afterRegisterCount" -> s.pcI.pc = "d2" /\ Len(s.toExec) = Cardinality(s.extFiles)
-      [] OTHER -> FALSE
-HookEnterEn(s, p) == p \notin s.held /\ AtPoint(s, p)
-HookEnterDo(s, p) == [s EXCEPT !.held = @ \cup {p}]
-HookLeaveEn(s, p) == p \in s.held
-HookLeaveDo(s, p) == [s EXCEPT !.held = @ \ {p}]
-
-----------------------------------------------------------------------------
 (* processes and the events watcher (watchEvents, handleProcessExit)       *)
 
 \* a process exits by itself or is signalled from outside (observable: ProcExit)
@@ -642,7 +650,7 @@ WNext(s, pc) == IF s.pcW.pc = "dead" THEN s
 WatchHandleEn(s) == s.pcW.pc = "w2"
 WatchHandleDo(s) == WNext(IF "watch-close-first" \in AsFound THEN WHandle(s) ELSE WCancel(s), "w3")
 
-WatchCancelEn(s) == s.pcW.pc = "w3" /\ "watch.flowsCanceled" \notin s.held
+WatchCancelEn(s) == s.pcW.pc = "w3" /\ Free(s, "watch.flowsCanceled")
 WatchCancelDo(s) == WNext(IF "watch-close-first" \in AsFound THEN WCancel(s) ELSE WHandle(s), "idle")
 
 ----------------------------------------------------------------------------
@@ -848,8 +856,8 @@ CredsEffect(s, c) ==
 
 EffectEn(s, c) ==
     /\ c \in DOMAIN s.calls /\ s.calls[c].st = "issued"
-    /\ (s.calls[c].api = "response" => "server.sendResponse" \notin s.held)
-    /\ (s.calls[c].api = "error" => "server.sendErrorResponse" \notin s.held)
+    /\ (s.calls[c].api = "response" => Free(s, "server.sendResponse"))
+    /\ (s.calls[c].api = "error" => Free(s, "server.sendErrorResponse"))
 EffectDo(s, c) ==
     LET call == s.calls[c] IN
     CASE call.api = "next" /\ call.who = "rt" -> RtNextEffect(s, c)
